@@ -2,6 +2,7 @@ package props
 
 import (
 	"fmt"
+	"os"
 	"strings"
 
 	"github.com/compose-spec/compose-go/v2/loader"
@@ -298,6 +299,9 @@ func c08types(c *core.Ctx, sch *schemagen.Schema) {
 	for _, root := range roots {
 		for _, p := range sch.Paths(root, "key", 8) {
 			t := sch.Types(p)
+			if len(p) >= 2 && p[len(p)-2] == "[]" && p[len(p)-1] == "published" {
+				continue // a published port is kept as text in the model (it may be a range): not a typed attribute
+			}
 			if !t["string"] || t["null"] || p[len(p)-1] == "key" || p[len(p)-1] == "[]" {
 				// values of free-form maps and list items are strings by nature, not typed attributes
 				continue
@@ -331,43 +335,61 @@ func c08types(c *core.Ctx, sch *schemagen.Schema) {
 		if last == "[]" || last == "key" {
 			last = ps.path[len(ps.path)-2]
 		}
+		type optSet struct {
+			name string
+			fn   func(*loader.Options)
+		}
+		optSets := []optSet{{"", func(*loader.Options) {}}}
+		if !c.Quick() {
+			// thorough: the conversion does not depend on which later stages run
+			optSets = append(optSets,
+				optSet{"/SkipNormalization", func(o *loader.Options) { o.SkipNormalization = true }},
+				optSet{"/SkipConsistencyCheck", func(o *loader.Options) { o.SkipConsistencyCheck = true }},
+				optSet{"/NoResolvePaths", func(o *loader.Options) { o.ResolvePaths = false }},
+				optSet{"/SkipDefaultValues", func(o *loader.Options) { o.SkipDefaultValues = true }})
+		}
 		for _, v := range valid[ps.kind] {
-			ps, v := ps, v
-			c.Do(fmt.Sprintf("type/%s/valid/%s", pathStr, v[0]), func() core.Outcome {
-				// the same text also at untyped positions: it must stay that text there, whatever the typed position made of it
-				litDoc := strings.ReplaceAll(strings.Replace(doc, "@@", v[1], 1), "@C@", "\""+v[0]+"\"")
-				varDoc := strings.ReplaceAll(strings.Replace(doc, "@@", "\"${V}\"", 1), "@C@", "\"${V}\"")
-				base := &Scn{Files: map[string]string{"s": "x"}}
-				pl, el := c08loadDoc(base, litDoc, nil)
-				if el != nil {
-					return core.Outcome{Class: "lit-rejected:" + trunc(el.Error(), 50), Trivial: true}
-				}
-				pv, ev := c08loadDoc(base, varDoc, map[string]string{"V": v[0]})
-				sample := map[string]any{"path": pathStr, "text": v[0], "doc": varDoc}
-				if ev != nil {
-					return core.Outcome{Class: "rej", Sample: sample, Viol: &core.Violation{Key: "typed:valid-text-rejected:" + genericPath(ps.path) + ":" + ps.kind,
-						Msg: fmt.Sprintf("%s: the valid %s text %q supplied through a variable is rejected: %v", pathStr, ps.kind, v[0], ev)}}
-				}
-				if d := ProjectDiff(pl, pv); d != "" {
-					return core.Outcome{Class: "diff", Sample: sample, Viol: &core.Violation{Key: "typed:value-differs:" + genericPath(ps.path),
-						Msg: fmt.Sprintf("%s: %q through a variable differs from the literal %s: %s", pathStr, v[0], v[1], trunc(d, 400))}}
-				}
-				// the same text written directly as a (quoted) string: the schema admits a string here and the loader converts it
-				strDoc := strings.ReplaceAll(strings.Replace(doc, "@@", "\""+v[0]+"\"", 1), "@C@", "\""+v[0]+"\"")
-				pq, eq := c08loadDoc(base, strDoc, nil)
-				if eq != nil {
-					if _, isPanic := eq.(*core.PanicError); isPanic {
-						return core.Outcome{Class: "panic", Sample: sample, Viol: &core.Violation{Key: "typed:panic:" + genericPath(ps.path), Msg: fmt.Sprintf("%s written as the string %q: %v", pathStr, v[0], eq)}}
+			for _, ops := range optSets {
+				ps, v, ops := ps, v, ops
+				c.Do(fmt.Sprintf("type/%s/valid/%s%s", pathStr, v[0], ops.name), func() core.Outcome {
+					// the same text also at untyped positions: it must stay that text there, whatever the typed position made of it
+					litDoc := strings.ReplaceAll(strings.Replace(doc, "@@", v[1], 1), "@C@", "\""+v[0]+"\"")
+					varDoc := strings.ReplaceAll(strings.Replace(doc, "@@", "\"${V}\"", 1), "@C@", "\"${V}\"")
+					base := &Scn{Files: map[string]string{"s": "x", "e.env": "E=1\n"}}
+					pl, el := c08loadDoc(base, litDoc, nil, ops.fn)
+					if el != nil {
+						if os.Getenv("C08_DEBUG") != "" {
+							fmt.Fprintf(os.Stderr, "C08DBG lit-rejected %s: %s\n", pathStr, trunc(el.Error(), 160))
+						}
+						return core.Outcome{Class: "lit-rejected:" + trunc(el.Error(), 50), Trivial: true}
 					}
-					return core.Outcome{Class: "rej", Sample: sample, Viol: &core.Violation{Key: "typed:string-literal-rejected:" + ps.kind,
-						Msg: fmt.Sprintf("%s: the valid %s text %q written as a quoted string is rejected although the same text through a variable loads: %v", pathStr, ps.kind, v[0], eq)}}
-				}
-				if d := ProjectDiff(pl, pq); d != "" {
-					return core.Outcome{Class: "diff", Sample: sample, Viol: &core.Violation{Key: "typed:string-literal-differs:" + genericPath(ps.path),
-						Msg: fmt.Sprintf("%s: %q as a quoted string differs from the literal %s: %s", pathStr, v[0], v[1], trunc(d, 400))}}
-				}
-				return core.Outcome{Class: pathStr + v[0], Sample: sample}
-			})
+					pv, ev := c08loadDoc(base, varDoc, map[string]string{"V": v[0]}, ops.fn)
+					sample := map[string]any{"path": pathStr, "text": v[0], "doc": varDoc}
+					if ev != nil {
+						return core.Outcome{Class: "rej", Sample: sample, Viol: &core.Violation{Key: "typed:valid-text-rejected:" + genericPath(ps.path) + ":" + ps.kind,
+							Msg: fmt.Sprintf("%s: the valid %s text %q supplied through a variable is rejected: %v", pathStr, ps.kind, v[0], ev)}}
+					}
+					if d := ProjectDiff(pl, pv); d != "" {
+						return core.Outcome{Class: "diff", Sample: sample, Viol: &core.Violation{Key: "typed:value-differs:" + genericPath(ps.path),
+							Msg: fmt.Sprintf("%s: %q through a variable differs from the literal %s: %s", pathStr, v[0], v[1], trunc(d, 400))}}
+					}
+					// the same text written directly as a (quoted) string: the schema admits a string here and the loader converts it
+					strDoc := strings.ReplaceAll(strings.Replace(doc, "@@", "\""+v[0]+"\"", 1), "@C@", "\""+v[0]+"\"")
+					pq, eq := c08loadDoc(base, strDoc, nil, ops.fn)
+					if eq != nil {
+						if _, isPanic := eq.(*core.PanicError); isPanic {
+							return core.Outcome{Class: "panic", Sample: sample, Viol: &core.Violation{Key: "typed:panic:" + genericPath(ps.path), Msg: fmt.Sprintf("%s written as the string %q: %v", pathStr, v[0], eq)}}
+						}
+						return core.Outcome{Class: "rej", Sample: sample, Viol: &core.Violation{Key: "typed:string-literal-rejected:" + ps.kind,
+							Msg: fmt.Sprintf("%s: the valid %s text %q written as a quoted string is rejected although the same text through a variable loads: %v", pathStr, ps.kind, v[0], eq)}}
+					}
+					if d := ProjectDiff(pl, pq); d != "" {
+						return core.Outcome{Class: "diff", Sample: sample, Viol: &core.Violation{Key: "typed:string-literal-differs:" + genericPath(ps.path),
+							Msg: fmt.Sprintf("%s: %q as a quoted string differs from the literal %s: %s", pathStr, v[0], v[1], trunc(d, 400))}}
+					}
+					return core.Outcome{Class: pathStr + v[0] + ops.name, Sample: sample}
+				})
+			}
 		}
 		for _, bad := range invalid[ps.kind] {
 			ps, bad := ps, bad
@@ -377,7 +399,7 @@ func c08types(c *core.Ctx, sch *schemagen.Schema) {
 			}
 			c.Do(fmt.Sprintf("type/%s/invalid/%s", pathStr, bad), func() core.Outcome {
 				varDoc := strings.ReplaceAll(strings.Replace(doc, "@@", "\"${V}\"", 1), "@C@", "c")
-				base := &Scn{Files: map[string]string{"s": "x"}}
+				base := &Scn{Files: map[string]string{"s": "x", "e.env": "E=1\n"}}
 				// the position must be live: the valid literal loads
 				probe := map[string]string{"boolean": "true", "integer": "1", "number": "1"}[ps.kind]
 				if _, el := c08loadDoc(base, strings.ReplaceAll(strings.Replace(doc, "@@", probe, 1), "@C@", "c"), nil); el != nil {
@@ -429,6 +451,108 @@ func c08types(c *core.Ctx, sch *schemagen.Schema) {
 }
 
 // c08docFor builds a minimal document with "@@" at the given schema path.
+// c08companions adds what the entry holding the typed attribute needs to be a valid entry of its kind (a port needs a
+// target, a mount a type and a target, a secret reference a source ...), so that the typed attribute is reached at all.
+func c08companions(doc map[string]any, path []string) {
+	// walk to every mapping on the path, remembering the path that led there
+	var cur any = doc
+	for i, k := range path {
+		m, isMap := cur.(map[string]any)
+		if l, isList := cur.([]any); isList && len(l) > 0 {
+			cur = l[0]
+			m, isMap = cur.(map[string]any)
+			_ = k
+			if !isMap {
+				return
+			}
+			// m is the list item reached through path[:i] (whose last element is "[]")
+			parent := ""
+			if i >= 1 {
+				parent = path[i-1] + ".[]"
+			}
+			set := func(k string, v any) {
+				if _, ok := m[k]; !ok {
+					m[k] = v
+				}
+			}
+			switch {
+			case strings.HasSuffix(parent, "secrets.[]"), strings.HasSuffix(parent, "configs.[]"):
+				set("source", "cmp")
+				kind := "secrets"
+				if strings.HasPrefix(parent, "configs") {
+					kind = "configs"
+				}
+				top, _ := doc[kind].(map[string]any)
+				if top == nil {
+					top = map[string]any{}
+					doc[kind] = top
+				}
+				if kind == "secrets" {
+					top["cmp"] = map[string]any{"file": "./s"}
+				} else {
+					top["cmp"] = map[string]any{"content": "c"}
+				}
+			case strings.HasSuffix(parent, "devices.[]"):
+				set("capabilities", []any{"gpu"})
+			case strings.HasSuffix(parent, "watch.[]"):
+				set("path", "./w")
+				set("action", "sync+exec")
+				set("target", "/t")
+				if ex, ok := m["exec"].(map[string]any); ok {
+					if _, has := ex["command"]; !has {
+						ex["command"] = []any{"x"}
+					}
+				}
+			case strings.HasSuffix(parent, "env_file.[]"):
+				set("path", "./e.env")
+			case strings.HasSuffix(parent, "ports.[]"):
+				set("target", 80)
+			case strings.HasSuffix(parent, "volumes.[]"):
+				set("target", "/t")
+				switch {
+				case m["bind"] != nil:
+					set("type", "bind")
+					set("source", "./b")
+				case m["tmpfs"] != nil:
+					set("type", "tmpfs")
+				default:
+					set("type", "volume")
+				}
+			}
+			cur = m
+			continue
+		}
+		if !isMap {
+			return
+		}
+		// mappings keyed by a free name
+		if i >= 1 && k == "key" {
+			switch path[i-1] {
+			case "ulimits":
+				if u, ok := m["key"].(map[string]any); ok {
+					if _, has := u["soft"]; !has {
+						u["soft"] = 1
+					}
+					if _, has := u["hard"]; !has {
+						u["hard"] = 100
+					}
+				}
+			case "depends_on":
+				if d, ok := m["key"].(map[string]any); ok {
+					if _, has := d["condition"]; !has {
+						d["condition"] = "service_started"
+					}
+					svcs, _ := doc["services"].(map[string]any)
+					if svcs != nil {
+						svcs["key"] = map[string]any{"image": "k"}
+					}
+				}
+			}
+		}
+		cur = m[k]
+	}
+}
+
 // c08docFor builds the witness document with the placeholder @@ at the typed position and the placeholder @C@ at two
 // untyped string positions, one walked before and one after any typed position (a config content, a top-level extension).
 func c08docFor(path []string) (string, bool) {
@@ -493,6 +617,7 @@ func c08docFor(path []string) (string, bool) {
 			}
 		}
 	}
+	c08companions(doc, path)
 	cfgs, _ := doc["configs"].(map[string]any)
 	if cfgs == nil {
 		cfgs = map[string]any{}
